@@ -191,6 +191,10 @@ pub fn leaf_rotation() -> Vec<Ast> {
         Ast::Str("q\"(".into()),
         Ast::Num(Decimal::new(5, 0)),
         Ast::Str("b\\s\tn\nr".into()),
+        // multi-byte text (2, 3 and 4 bytes per character): whatever follows it in a program sits
+        // at a byte offset that differs from its character index
+        Ast::Str("\u{e9}\u{20ac} \u{1f600}".into()),
+        Ast::Ref("\u{e9}".into()),
     ]
 }
 
